@@ -784,9 +784,17 @@ impl<'tcx> Dumper<'tcx> {
         let mut adts: Vec<(String, J)> = Vec::new();
         let mut traits: Vec<(String, J)> = Vec::new();
         let mut impls: Vec<J> = Vec::new();
+        let mut statics: Vec<J> = Vec::new();
         for ldid in tcx.hir_crate_items(()).definitions() {
             let did = ldid.to_def_id();
             match tcx.def_kind(did) {
+                DefKind::Static { .. } => {
+                    statics.push(J::obj(vec![
+                        ("path", s(path_of(tcx, did))),
+                        ("ty", s(ty_str(tcx.type_of(did).skip_binder()))),
+                        ("mutable", J::Bool(tcx.is_mutable_static(did))),
+                    ]));
+                }
                 DefKind::Struct | DefKind::Enum => {
                     let def = tcx.adt_def(did);
                     let mut variants = Vec::new();
@@ -917,6 +925,7 @@ impl<'tcx> Dumper<'tcx> {
             ("traits", J::Obj(traits)),
             ("impls", J::Arr(impls)),
             ("instances", J::Obj(instances)),
+            ("statics", J::Arr(statics)),
             (
                 "enums",
                 J::Obj(
